@@ -2,6 +2,7 @@
 from __future__ import annotations
 
 import ast
+import os
 import time
 from dataclasses import dataclass, field
 
@@ -25,6 +26,7 @@ PARAM_SPECS = {
     "ctx": "SqlContext",
     "current_table": "Table|None",
     "new_table": "Table|None",
+    "criterion": "Term|EmptyCriterion",
 }
 
 
@@ -51,9 +53,11 @@ def param_spec(fi: FuncInfo, name: str, default: ast.expr | None, overrides: dic
 
 
 def run_function(fi: FuncInfo, ci: ClassInfo | None = None, overrides: dict | None = None, r: Repo | None = None,
-                 undecorated=False, self_fresh=False, limit=None) -> Run:
+                 undecorated=False, self_fresh=False, limit=None, pre=None, budget_s=None) -> Run:
     r = r or repo()
     ex = Exec(r, tags(r))
+    budget_s = budget_s or float(os.environ.get("PYVC_FUNC_BUDGET", "120"))
+    ex.deadline = time.time() + budget_s
     node = fi.node
     a = node.args
     params = {}
@@ -98,6 +102,10 @@ def run_function(fi: FuncInfo, ci: ClassInfo | None = None, overrides: dict | No
 
     t0 = time.time()
     run = Run(fi, ci, ex, [], self_obj, params)
+    if pre is not None:
+        pre(ex, self_obj, params)
+    if fi.name != "get_sql":
+        ex.contract_self_methods = {"get_sql"}
     try:
         outs = ex.explore(go, limit=limit)
         for o in outs:
